@@ -8,6 +8,7 @@ joins (any order, repetitions, arbitrary identifications), with no bound.
 import Pyiga.Proofs.Multipatch
 import Pyiga.Proofs.MultipatchMat
 import Pyiga.Proofs.MultipatchSlice
+import Pyiga.Proofs.MultipatchPhases
 import Mathlib.Logic.Equiv.Basic
 import Mathlib.Data.Fin.Embedding
 
@@ -144,6 +145,33 @@ example : declaredOf [[2,2],[2,2],[2,2],[2,2]]
     [.jb 0 1 1 1 1 0 none, .jb 2 1 1 3 1 0 none, .jb 0 0 1 2 0 0 none, .jb 1 0 1 3 0 0 (some [false])] =
     [((0,1),(1,0)), ((0,3),(1,2)),  ((2,1),(3,0)), ((2,3),(3,2)),
      ((0,2),(2,0)), ((0,3),(2,1)),  ((1,2),(3,0)), ((1,3),(3,1))] := by decide
+
+/-- **glue_spec_phases**: one object through any number of phases (joins, `finalize()`, more joins — also
+identifications that merge classes formed before an earlier `finalize()` — `finalize()` again, …): after every
+phase the numbering recomputed from the current tables glues exactly the equivalence closure of *all*
+identifications declared so far, gap-free.  (Anything a query caches across `finalize()` therefore goes stale:
+the harness diffs `compute_dirichlet_bcs`, `patch_to_global_idx`, `assemble_system` after every phase.) -/
+theorem glue_spec_phases (P : Nat) (N : Nat → Nat) (phases : List (List (Dof × Dof)))
+    (hval : ∀ L ∈ phases, ValidPairs P N L) :
+    Glued ⟨P, N, runPhases Cfg.repaired State.init phases⟩ phases.flatten := by
+  have g := runPhases_good (P := P) (N := N) phases State.init [] (Good.init P N) hval
+  simp only [List.nil_append] at g
+  exact glued_of_invariants (G := ⟨P, N, runPhases Cfg.repaired State.init phases⟩) g.inv g.sound g.cls g.nonempty g.valid
+
+/-- the same for phases of API calls (`join_boundaries` calls need no hypothesis) -/
+theorem glue_spec_call_phases (shapes : List (List Nat)) (phases : List (List Call))
+    (hval : ∀ cs ∈ phases, ∀ c ∈ cs, CallValid shapes c) :
+    Glued ⟨shapes.length, fun p => Index.prod (shapes.getD p []),
+      runCallPhases Cfg.repaired shapes State.init phases⟩ (phases.map (declaredOf shapes)).flatten := by
+  rw [runCallPhases_eq]
+  apply glue_spec_phases
+  intro L hL
+  obtain ⟨cs, hcs, rfl⟩ := List.mem_map.1 hL
+  exact declaredOf_valid shapes cs (hval cs hcs)
+
+example : (⟨4, fun _ => 4, runPhases Cfg.repaired State.init
+      [[((0,1),(1,0)), ((0,3),(1,2)), ((2,1),(3,0)), ((2,3),(3,2))],
+       [((0,2),(2,0)), ((0,3),(2,1)), ((1,2),(3,0)), ((1,3),(3,1))]]⟩ : Glob).numdofs = 9 := by decide
 
 /-- on histories without a join that meets two existing classes the original source and the repaired
 algorithm compute the same tables -/
